@@ -321,7 +321,8 @@ NAME_INJECTIVE = ForAll([S_], un(nm(S_)) == S_)
 W.axioms.append(NAME_INJECTIVE)
 W.premises = {'name_injective': NAME_INJECTIVE}
 W.axioms.append(ForAll([S_], nm(S_) != NONE_ST))
-W.contract(Contract('fn.to_single_state', [('l_states', SetSt)], ret=St, pure=lambda o: Sym(St, nm(o.l_states.term))))
+nm_raw = Function('to_single_state', SetSt.sort(), St.sort())     # the bare ';'-join: NOT injective, no axiom about it
+W.contract(Contract('fn.to_single_state', [('l_states', SetSt)], ret=St, pure=lambda o: Sym(St, nm_raw(o.l_states.term))))
 # StateNamer (fix 60ce915): get_merged / get_pair are cached and never give one name to two keys.  At the call sites the namer is
 # therefore modelled as a lazily sampled *injective* function (nm / pr2 with inverses un / up1, up2): for every execution the final
 # cache is an injective partial map, which extends to a total injective function.  That the class really behaves like this is the
@@ -434,8 +435,9 @@ pr2 = Function('pr2', St.sort(), St.sort(), St.sort())       # combine_state_pai
 up1 = Function('up1', St.sort(), St.sort()); up2 = Function('up2', St.sort(), St.sort())
 PAIR_INJECTIVE = ForAll([p, q], And(up1(pr2(p, q)) == p, up2(pr2(p, q)) == q))
 W.axioms.append(PAIR_INJECTIVE); W.premises['pair_injective'] = PAIR_INJECTIVE
+pr2_raw = Function('combine_state_pair', St.sort(), St.sort(), St.sort())     # the bare '; '-join: NOT injective
 W.contract(Contract('fn.combine_state_pair', [('state0', St), ('state1', St)], ret=St,
-    pure=lambda o: Sym(St, pr2(o.state0.term, o.state1.term))))
+    pure=lambda o: Sym(St, pr2_raw(o.state0.term, o.state1.term))))
 W.contract(Contract('Namer.get_pair', [('self', NAMER), ('state0', St), ('state1', St)], ret=St,
     pure=lambda o: Sym(St, pr2(o.state0.term, o.state1.term))))
 for cls in (ENFA, NFA, DFA):
